@@ -47,11 +47,11 @@ def showParsed : Option (List (Str × Option Str)) → String
   | some [] => "some"
   | some l => "some " ++ ",".intercalate (l.map fun (k, v) => s!"{hexStr k}={showOpt v}")
 
-def mkEnv (fproto scheme fhost host sname sport qs fullpath : String) : Option UrlEnv := do
+def mkEnv (fproto scheme fhost host sname sport qs script fullpath : String) : Option UrlEnv := do
   let fp ← parseFullpath fullpath
   pure { fwdProto := optStr fproto, urlScheme := optStr scheme, fwdHost := optStr fhost,
          host := optStr host, serverName := optStr sname, serverPort := optStr sport,
-         query := optStr qs, fullpath := fp }
+         query := optStr qs, scriptName := optStr script, joinLib := fp }
 
 def showResp (r : Resp) : String :=
   s!"status={hexStr r.status} ctype={hexStr r.ctype} body={hexStr r.body}"
@@ -72,14 +72,19 @@ def handle : List String → Option String
     some (showF (render isPrintable Ombott.Gen.errorTemplateLines
       { code := 0, status := unhexStr st, body := optStr b, exception := optStr e, traceback := optStr t }
       (unhexStr u) (bool01 dbg)))
-  | ["url", fproto, scheme, fhost, host, sname, sport, qs, fullpath] => do
-    let env ← mkEnv fproto scheme fhost host sname sport qs fullpath
-    pure (match requestUrl env with
+  | ["fullpath", script, pathInfo, lib] => do
+    let l ← parseFullpath lib
+    pure (match fullpathOf (optStr script) (unhexStr pathInfo) l with
       | .ok u => s!"ok {hexStr u}"
       | .error e => s!"err {e.name}")
-  | ["serve", dbg, head, raw, accept, fproto, scheme, fhost, host, sname, sport, qs, fullpath, oc,
+  | ["url", fproto, scheme, fhost, host, sname, sport, qs, script, fullpath, pathInfo] => do
+    let env ← mkEnv fproto scheme fhost host sname sport qs script fullpath
+    pure (match requestUrl env (unhexStr pathInfo) with
+      | .ok u => s!"ok {hexStr u}"
+      | .error e => s!"err {e.name}")
+  | ["serve", dbg, head, raw, accept, fproto, scheme, fhost, host, sname, sport, qs, script, fullpath, oc,
      hfail, d1, d2] => do
-    let env ← mkEnv fproto scheme fhost host sname sport qs fullpath
+    let env ← mkEnv fproto scheme fhost host sname sport qs script fullpath
     let o ← parseOutcome oc
     pure (showResp (serve isPrintable Ombott.Gen.errorTemplateLines (bool01 dbg)
       { rawPath := unhexBytes raw, env := env, accept := optStr accept, isHead := bool01 head }
